@@ -496,3 +496,24 @@ Qed.
 
 Lemma vm_tables_wf_initial : forall F, tables_wf F (st_heap fresh_state).
 Proof. intros F a t H. unfold hget in H. cbn in H. destruct (N.to_nat a); discriminate. Qed.
+
+(* set-then-get through any key: needs the key test to be an equivalence on the key domain *)
+Lemma al_get_set_law (eq : eqfun) (D : value -> Prop) :
+  (forall a, D a -> kb eq a a = true) ->
+  (forall a b, D a -> D b -> kb eq a b = true -> kb eq b a = true) ->
+  (forall a b c, D a -> D b -> D c -> kb eq a b = true -> kb eq b c = true -> kb eq a c = true) ->
+  forall m k v k2, Forall D (map fst m) -> D k -> D k2 ->
+    al_get eq k2 (al_set eq k v m) = if kb eq k k2 then Some v else al_get eq k2 m.
+Proof.
+  intros Hr Hs Ht m k v k2 HD Dk Dk2. induction m as [|[k' v'] r IH]; cbn [al_set al_get].
+  - destruct (kb eq k k2); reflexivity.
+  - cbn [map fst] in HD. inversion HD as [|? ? Dk' Dr]; subst. specialize (IH Dr).
+    destruct (kb eq k' k) eqn:E1; cbn [al_get].
+    + destruct (kb eq k k2) eqn:E2.
+      * rewrite (Ht k' k k2 Dk' Dk Dk2 E1 E2). reflexivity.
+      * destruct (kb eq k' k2) eqn:E3; [|reflexivity].
+        rewrite (Ht k k' k2 Dk Dk' Dk2 (Hs k' k Dk' Dk E1) E3) in E2. discriminate.
+    + destruct (kb eq k' k2) eqn:E3; [|exact IH].
+      destruct (kb eq k k2) eqn:E2; [|reflexivity].
+      rewrite (Ht k' k2 k Dk' Dk2 Dk E3 (Hs k k2 Dk Dk2 E2)) in E1. discriminate.
+Qed.
